@@ -13,15 +13,16 @@
    PARTIAL: proved in full for the three integer codings, for rANS 4x8 orders 0 AND 1 (every
    byte string, whole stream, against the independent decoder) and for rANS Nx16 under EVERY
    flag byte (STRIPE, ORDER 0/1, N32, NO_SIZE, CAT, RLE, PACK), through the model of noodles' own
-   decoder; the arithmetic coder, fqzcomp, the name tokenizer and gzip/bzip2/lzma have no theorem
-   (implementation-side oracle only). *)
+   decoder, for the adaptive arithmetic coder under every flag byte except EXT (NV.Cram.Aac,
+   AacModes, AacRle) and for fqzcomp with every record partition (NV.Cram.Fqz); the name tokenizer
+   and gzip/bzip2/lzma have no theorem (implementation-side oracle only). *)
 From Coq Require Import List NArith ZArith.
 From NV Require Import Cram.Bytes Cram.Itf8 Cram.Ltf8 Cram.Vlq Cram.IntProofs Cram.Rans4x8 Cram.Rans4x8Proofs
   Cram.Rans4x8Table Cram.Rans4x8O1 Cram.Rans4x8O1Proofs Cram.Rans4x8O1Table Cram.Rans4x8O1Full
   Cram.Nx16Xform Cram.Nx16XformProofs Cram.Nx16O0 Cram.Nx16O0Proofs Cram.Nx16O0Table Cram.Nx16O0Total
   Cram.Nx16O1 Cram.Nx16O1Defs Cram.Nx16O1Proofs Cram.Nx16O1Table Cram.Nx16O1Count Cram.Nx16Full
   Cram.Nx16FullProofs Cram.Nx16O1Total Cram.Nx16O1Full Cram.Nx16Stripe Cram.Nx16StripeLists Cram.Nx16StripeProofs Cram.Aac Cram.AacModes Cram.AacRle
-  Cram.AacModesProofs.
+  Cram.AacModesProofs Cram.AacRange Cram.AacProofs Cram.AacTotal Cram.AacModesRt Cram.AacRleRt Cram.AacStripeProofs Cram.AacAll Cram.AacModesTotal Cram.Fqz Cram.FqzProofs Cram.FqzTotal.
 Import ListNotations.
 Open Scope N_scope.
 
@@ -419,9 +420,105 @@ Theorem c08_nx_decode_s_never_panics : forall bs usize,
 Proof. exact nx_decode_s_never_panics. Qed.
 Print Assumptions c08_nx_decode_s_never_panics.
 
-(* the full C08 statement, NOT proved beyond the parts above: the adaptive arithmetic coder,
-   fqzcomp, the name tokenizer and gzip/bzip2/lzma have no Gallina model; rANS Nx16 is proved
-   against the model of noodles' own decoder, not against an independent specification decoder *)
+(* ---------------- adaptive arithmetic coder (CRAM 3.1 "arith") ---------------- *)
+
+(* ORDER 0, the range coder with carry propagation and the adaptive model, EVERY non-empty byte
+   string: the model of noodles' encoder never panics and the model of noodles' decoder returns the
+   input, whatever follows the stream *)
+Theorem c08_aac_o0_roundtrip : forall src tail,
+  src <> [] -> Forall (fun b => b < 256) src ->
+  exists body, aac_o0_encode src = Some body /\ aac_o0_decode (body ++ tail) (length src) = ROk src.
+Proof. exact aac_o0_roundtrip. Qed.
+Print Assumptions c08_aac_o0_roundtrip.
+
+(* ORDER 1 (one adaptive model per previous symbol), every non-empty byte string *)
+Theorem c08_aac_o1_roundtrip : forall src tail,
+  src <> [] -> Forall (fun b => b < 256) src ->
+  exists body, aac_o1_encode src = Some body /\ aac_o1_decode (body ++ tail) (length src) = ROk src.
+Proof. exact aac_o1_roundtrip_tail. Qed.
+Print Assumptions c08_aac_o1_roundtrip.
+
+(* the range coder writes at most 4 bytes per symbol plus 6 (needed for the STRIPE size fields) *)
+Theorem c08_aac_o0_encode_len : forall src body,
+  aac_o0_encode src = Some body -> (length body <= 4 * length src + 7)%nat.
+Proof. exact aac_o0_encode_len. Qed.
+Print Assumptions c08_aac_o0_encode_len.
+
+(* WHOLE AAC STREAMS, every flag byte without RLE and EXT -- or with STRIPE, where the other flags
+   are ignored --, every byte string shorter than 2^28: aac::encode never panics and aac::decode
+   returns the input: order 0 or 1, PACK applied or refused, CAT given or forced when nothing is
+   left to code, size field or caller size, 4 striped NO_SIZE sub-streams with the recursive decoder *)
+Theorem c08_aac_all_roundtrip_norle : forall f src,
+  f_stripe f = true \/ (f_n32 f = false /\ f_rle f = false) ->
+  Forall (fun b => b < 256) src -> N.of_nat (length src) < 268435456 ->
+  exists bytes, aac_encode_r f src = AeOk bytes /\ aac_decode_r bytes (N.of_nat (length src)) = DOk src.
+Proof. exact aac_all_roundtrip_norle. Qed.
+Print Assumptions c08_aac_all_roundtrip_norle.
+
+(* the RLE modes, both orders: literals in the symbol model(s), run lengths as base-4 digits in 258
+   four-symbol models; every non-empty byte string shorter than 2^32 *)
+Theorem c08_aac_rle_roundtrip : forall o1 src tail,
+  src <> [] -> Forall (fun b => b < 256) src -> N.of_nat (length src) < 4294967296 ->
+  exists body, aac_rle_encode o1 src = Some body /\ aac_rle_decode o1 (body ++ tail) (length src) = ROk src.
+Proof. exact aac_rle_roundtrip_tail. Qed.
+Print Assumptions c08_aac_rle_roundtrip.
+
+(* EVERY AAC flag byte except EXT (bzip2): ORDER, STRIPE, NO_SIZE, CAT, RLE, PACK, reserved bit *)
+Theorem c08_aac_all_roundtrip : forall f src,
+  f_stripe f = true \/ f_n32 f = false ->
+  Forall (fun b => b < 256) src -> N.of_nat (length src) < 268435456 ->
+  exists bytes, aac_encode_r f src = AeOk bytes /\ aac_decode_r bytes (N.of_nat (length src)) = DOk src.
+Proof. exact aac_all_roundtrip. Qed.
+Print Assumptions c08_aac_all_roundtrip.
+
+(* the order-0 decoder and the whole-stream decoder (PACK, CAT, order 0) never panic: no division
+   by zero, no table index out of range, no u32 overflow or underflow in the range decoder *)
+Theorem c08_aac_o0_decode_never_panics : forall bs len,
+  Forall (fun b => b < 256) bs -> aac_o0_decode bs len <> RPanic.
+Proof. exact aac_o0_decode_never_panics. Qed.
+Print Assumptions c08_aac_o0_decode_never_panics.
+
+Theorem c08_aac_decode_never_panics : forall bs usize,
+  Forall (fun b => b < 256) bs -> aac_decode bs usize <> DPanic.
+Proof. exact aac_decode_never_panics. Qed.
+Print Assumptions c08_aac_decode_never_panics.
+
+(* the whole AAC decoder for every flag byte -- order 0 / 1, RLE (unbounded digit loop), PACK, CAT,
+   nested STRIPE -- never panics on any byte string (EXT is answered "unsupported") *)
+Theorem c08_aac_decode_r_never_panics : forall bs usize,
+  Forall (fun b => b < 256) bs -> aac_decode_r bs usize <> DPanic.
+Proof. exact aac_decode_r_never_panics. Qed.
+Print Assumptions c08_aac_decode_r_never_panics.
+
+(* ---------------- fqzcomp ---------------- *)
+
+(* EVERY quality string shorter than 2^32 with EVERY partition into records (zero-length records
+   are dropped by the encoder): the model of fqzcomp::encode never panics and the model of
+   fqzcomp::decode returns the qualities -- parameter block with its run-length coded position
+   table, record lengths in the four byte models (once for equal-length records), every quality in
+   the model chosen by the 16-bit context of quality history and position *)
+Theorem c08_fqz_roundtrip : forall lens src,
+  Forall (fun b => b < 256) src -> N.of_nat (length src) < 4294967296 ->
+  fold_right Nat.add 0%nat (filter (fun l => (0 <? l)%nat) lens) = length src ->
+  exists bytes, fqz_encode lens src = Some bytes /\ fqz_decode bytes = FOk src.
+Proof. exact fqz_roundtrip. Qed.
+Print Assumptions c08_fqz_roundtrip.
+
+(* the two-level run-length coding of the position table is read back, whatever follows it *)
+Theorem c08_fqz_ptab_roundtrip : forall b rest,
+  read_array (write_array (enc_ptab b) ++ rest) 1024 = Some (enc_ptab b, rest).
+Proof. exact ptab_roundtrip. Qed.
+Print Assumptions c08_fqz_ptab_roundtrip.
+
+(* the fqzcomp decoder (for the streams it models) never panics on any byte string *)
+Theorem c08_fqz_decode_never_panics : forall bs,
+  Forall (fun b => b < 256) bs -> fqz_decode bs <> FPanic.
+Proof. exact fqz_decode_never_panics. Qed.
+Print Assumptions c08_fqz_decode_never_panics.
+
+(* the full C08 statement, NOT proved beyond the parts above: AAC with EXT (bzip2), the name
+   tokenizer and gzip/bzip2/lzma have no Gallina model; rANS Nx16, AAC and fqzcomp are proved
+   against the models of noodles' own decoders, not against independent specification decoders *)
 Definition c08_full_statement_informal : Prop :=
   forall src, Forall (fun x => x < 256) src -> N.of_nat (length src) + 4 < 4294967296 ->
     (exists bytes, encode_o0 src = EncOk bytes /\ spec_decode bytes = Some src) /\
@@ -575,4 +672,50 @@ Example c08_aac_vectors :
   aac_encode_byte 128 [9; 9; 9] = AeOk [160; 3; 1; 9; 0] /\
   aac_decode [160; 3; 1; 9; 0] 0 = DOk [9; 9; 9] /\
   aac_decode [0; 7; 116; 0; 244; 229] 0 = DErr.
+Proof. vm_compute. repeat split. Qed.
+
+(* adaptive arithmetic coder, the other modes: noodles' test vectors of aac/encode.rs (order 1,
+   STRIPE, RLE with order 0 and 1, PACK) are reproduced byte for byte by the model encoder, and
+   the model decoder maps them back *)
+Example c08_aac_mode_vectors :
+  let noodles := [110; 111; 111; 100; 108; 101; 115] in
+  let nooodles := [110; 111; 111; 111; 111; 111; 111; 111; 111; 100; 108; 101; 115] in
+  let rt fb src := match aac_encode_r_byte fb src with
+                   | AeOk b => aac_decode_r b (N.of_nat (length src))
+                   | _ => DErr end in
+  aac_encode_r_byte 1 noodles = AeOk
+    [1; 7; 116; 0; 244; 227; 131; 65; 226; 154; 239; 83; 80; 0] /\
+  aac_encode_r_byte 8 noodles = AeOk
+    [8; 7; 4; 8; 8; 8; 7; 16; 111; 0; 255; 167; 171; 98; 0; 16; 112; 0; 255; 132; 146; 27; 0; 16;
+     116; 0; 247; 39; 219; 36; 0; 16; 101; 0; 253; 119; 32; 176] /\
+  aac_encode_r_byte 64 nooodles = AeOk
+    [64; 13; 116; 0; 243; 75; 33; 16; 168; 227; 132; 254; 107; 34; 0] /\
+  aac_encode_r_byte 65 nooodles = AeOk
+    [65; 13; 116; 0; 243; 74; 137; 121; 193; 232; 195; 197; 98; 49; 0] /\
+  aac_encode_r_byte 160 noodles = AeOk
+    [160; 7; 6; 100; 101; 108; 110; 111; 115; 4; 67; 4; 18; 5] /\
+  rt 1 noodles = DOk noodles /\ rt 8 noodles = DOk noodles /\ rt 64 nooodles = DOk nooodles /\
+  rt 65 nooodles = DOk nooodles /\ rt 160 noodles = DOk noodles /\ rt 201 nooodles = DOk nooodles.
+Proof. vm_compute. repeat split. Qed.
+
+(* fqzcomp: noodles' test vectors (fqzcomp/encode.rs test_encode, test_encode_with_do_len;
+   decode.rs test_decode -- a stream with q_bits 8, q_shift 2 --, test_decode_with_invalid_record_length)
+   through the model encoder and decoder *)
+Example c08_fqz_vectors :
+  let s1 := [0; 0; 0; 1; 1; 2; 1; 1; 0; 0; 0; 1; 2; 3; 3; 3; 3; 3; 3; 3; 2; 1; 1; 0; 0] in
+  let s2 := [0; 0; 0; 1; 1; 2; 1; 1; 0; 0; 0; 1; 2; 3; 3; 3; 3; 3; 3; 3; 2; 1; 1; 0; 0; 0; 0; 0; 1; 1] in
+  fqz_encode [10; 10; 5]%nat s1 = Some
+    [25; 5; 0; 0; 0; 32; 3; 149; 127; 15; 1; 1; 125; 255; 255; 1; 132; 0; 9; 255; 255; 246; 1;
+     101; 0; 134; 46; 152; 234; 202; 113; 111; 8; 81; 111; 0] /\
+  fqz_encode [10; 10; 10]%nat s2 = Some
+    [30; 5; 0; 0; 0; 36; 3; 149; 127; 15; 1; 1; 125; 255; 255; 1; 132; 0; 9; 255; 255; 246; 1;
+     101; 12; 16; 134; 109; 87; 16; 56; 96; 172] /\
+  fqz_decode
+    [25; 5; 0; 0; 0; 32; 3; 130; 127; 15; 1; 1; 125; 255; 255; 1; 132; 0; 9; 255; 255; 246; 1;
+     101; 0; 134; 46; 152; 234; 202; 113; 111; 34; 205; 216; 64] = FOk s1 /\
+  fqz_decode
+    [48; 5; 0; 0; 0; 32; 39; 149; 127; 15; 1; 1; 125; 255; 255; 1; 132; 0; 0; 0; 0; 0; 1; 45;
+     156; 173; 31; 97; 120; 250; 165; 76; 52; 250; 102; 15; 218; 154; 69; 240; 142; 219; 116; 54;
+     182; 99; 194; 139; 205; 153; 201; 84; 224; 65; 7; 154; 173; 54; 58; 33; 173; 77; 86] = FErr /\
+  (match fqz_encode [10; 10; 10]%nat s2 with Some b => fqz_decode b | None => FErr end) = FOk s2.
 Proof. vm_compute. repeat split. Qed.
